@@ -395,7 +395,15 @@ def _lines_inside_string_literals(code: str) -> Set[int]:
     return linenos
 
 
-def _do_rewrite(source: str, rewrite: _Rewrite, *, fix_function_name: str = "") -> str:
+def _do_rewrite(
+    source: str, rewrite: _Rewrite, *, fix_function_name: str = "", scheduled: bool = False
+) -> str:
+    """Apply one rewrite to source.
+
+    A rewrite on a line with an ignore comment is refused: the source is returned as it is. With
+    scheduled=True this test is left to the caller (_schedule_rewrites decides it per transaction, on
+    the original source).
+    """
     old, new = rewrite
     start, end = _get_charnos(rewrite, source)
     code = source[start:end]
@@ -422,7 +430,7 @@ def _do_rewrite(source: str, rewrite: _Rewrite, *, fix_function_name: str = "") 
     if isinstance(old, core.Range):
         # Prevent changes being applied if `# pyrefact: skip_file` or `pyrefact: ignore` comment
 
-        if core.has_ignore_comment(source, old):
+        if not scheduled and core.has_ignore_comment(source, old):
             return source
 
         # Prevent whitespace-only changes from being applied
@@ -765,7 +773,12 @@ def _schedule_rewrites(
 def _apply_rewrites(source: str, rewrites: Sequence[Tuple[Any, Callable]]) -> str:
     original_source = new_source = source
     for transaction, (_, rewrite) in rewrites:
-        new_source = _do_rewrite(new_source, rewrite, fix_function_name=transaction.group_name)
+        # The ignore comments were tested by _schedule_rewrites, per transaction and on the original
+        # source. The ranges are positions in the original source: the rewrites are applied back to
+        # front, and a rewrite that joins lines may have moved an ignore comment onto this one's line.
+        new_source = _do_rewrite(
+            new_source, rewrite, fix_function_name=transaction.group_name, scheduled=True
+        )
 
     if not core.is_valid_python(new_source):
         return source
